@@ -52,8 +52,8 @@ def photon_number_equal(ctx, res: Result, fi: FuncInfo, must_mention: list[str],
     collection X of photon numbers: `min(X) != max(X)`, `len(set(X)) != 1` / `> 1`, `any(n != X[0] for n in X)`.  A guard
     that compares the *set* of numbers of one collection with that of another (`set(A) != set(B)`) is recognised as
     insufficient: mixed numbers pass when both sides are mixed alike."""
-    from ..inline import inlined
-    fn = inlined(fi.node)
+    from ..inline import with_helpers
+    fn = with_helpers(ctx, fi).node
 
     def resolve(e, depth=0):
         """names of the collections the photon numbers are taken from"""
